@@ -721,8 +721,15 @@ func (t *tr2) rangeStmt(x *ast.RangeStmt, c *fctx, rest func() string) string {
 	body := t.stmts(x.Body.List, lc, func() string { return lc.next })
 	var loop string
 	switch {
-	case isBytes(xt):
-		loop = "(range_loop (R:=" + c.rty + ") (fun " + k + " " + v + " " + funPat(pat) + " =>\n " + body + ") 0 " + xs + " " + val + ")"
+	case isString(xt):
+		t.fail(x, "range over a string yields runes (UTF-8 decoding): unsupported; index its bytes instead")
+		return rest()
+	case isBytes(xt), isBoolList(xt):
+		ety := "Z"
+		if isBoolList(xt) {
+			ety = "bool"
+		}
+		loop = "(range_loop (R:=" + c.rty + ") (fun (" + k + " : Z) (" + v + " : " + ety + ") " + funPat(pat) + " =>\n " + body + ") 0 " + xs + " " + val + ")"
 	default:
 		if _, ok := intKind(xt); ok && x.Value == nil { // for i := range n
 			loop = "(count_loop (R:=" + c.rty + ") (fun " + k + " " + funPat(pat) + " =>\n " + body + ") 0 " + xs + " " + val + ")"
